@@ -33,3 +33,8 @@ PROP = {
          "finding": "C17-mean-read-torn", "facets": ["C17/linearizable"], "checks": (1, 1), "shards": (1, 1), "timeout": (300, 600)},
     ],
 }
+
+import os, importlib.util
+_spec = importlib.util.spec_from_file_location("c01", os.path.join(os.path.dirname(os.path.abspath(__file__)), "C01.py"))
+_m = importlib.util.module_from_spec(_spec); _spec.loader.exec_module(_m)
+PROP["units"].append(dict(_m.SIM_UNIT))
